@@ -158,6 +158,11 @@ Definition c18_chain (w : service) (req : request) : bool :=
   pairwise (fun a b => dominates (route_tpl w a) (route_tpl w b) || dominates (route_tpl w b) (route_tpl w a))
            (filter (fun r => admits O w r req) (s_routes w)).
 
+(* the eligible routes form a chain under literal-over-variable, twins (same shape) allowed *)
+Definition c18_chain_weak (w : service) (req : request) : bool :=
+  pairwise (fun a b => tpl_ge (route_tpl w a) (route_tpl w b) || tpl_ge (route_tpl w b) (route_tpl w a))
+           (filter (fun r => admits O w r req) (s_routes w)).
+
 (* candidates that survive every stage form a chain under literal-over-variable *)
 Definition unambiguous (t : table) (req : request) : bool :=
   match detect_web_service O (tokenize (rq_path req)) (t_services t) with
